@@ -225,7 +225,12 @@ func (f *family) rollup() {
 			}
 
 			// finally, need commit edit log
-			f.commitEditLog(editLog)
+			if !f.commitEditLog(editLog) {
+				// the source family still lists the files as waiting for rollup: keep the reference
+				// files of the target families, they are what makes the next job skip the files
+				// that are merged already (it commits the delete rollup file logs again).
+				return
+			}
 
 			// clean reference files from target file
 			for targetFamily, files := range targetFamiles {
